@@ -13,6 +13,7 @@ from props.c03 import NAMES, gen_history, gen_space, recording_snaps
 from vp import calharness as ch
 from vp.core import LEAN, Check, f2h, fl, lean_run
 from vp.tape import RecGen, install
+from props import pso_model
 
 MODULE = "BlackIt.Properties.C16"
 PROP_FILE = LEAN / "BlackIt/Properties/C16.lean"
@@ -57,6 +58,11 @@ def run(chk: Check):
                         "harness/props/c16.py, harness/vp/tape.py"]
     chk.assumptions = ["immutability is trivial in the model; the no-modification clause is decided on the real arrays"]
     chk.proof_stage(PROP_FILE)
+    # ---------------- (d) the whole particle-swarm sampler against BlackIt.Pso.sampleBatch, bit for bit (see props/pso_model.py)
+    chk.rule += ("; (d) ParticleSwarmSampler driven through sample_batch with a recording generator over histories that grow as a calibrator makes them grow (own batch, other samplers' "
+                 "rows, failed and partial batches, emptied history): raw proposal and whole state after every call equal BlackIt.Pso.sampleBatch on the recorded draws, and the "
+                 "conclusions of the Pso theorems are evaluated on the real object")
+    pso_model.run(chk, 60 if chk.tier == "quick" else 1500)
     reqs, metas = [], []
     # ---------------- (a) no mutation
     n_a = 8 if chk.tier == "quick" else 100
